@@ -133,3 +133,6 @@ def run(ctx):
     c06.check_parse_and_validate(ctx, "C08.5")
     c06.check_decode_segwit(ctx, "C08.5")
     c06.check_bech32_decode(ctx, "C08.5")
+    # Base58Check addresses: the codec's alphabet enforcement, radix loops and checksum obligations (shared with C07)
+    from . import c07
+    c07.check_base58(ctx, lambda k: "C08.6")
